@@ -131,6 +131,7 @@ import JdProofs.DiffPatchKeys
 import JdProofs.MergePrecision
 import JdProofs.KeysMergeB
 import JdProofs.KeysMerge
+import JdProps.C01Precision
 
 set_option autoImplicit false
 
